@@ -252,15 +252,27 @@ sim::CaseResult ConcSim::run(const sim::Options &, const Json &plan)
         std::vector<std::string> spaceNames;
         std::string error;
         uint64_t h = 1469598103934665603ULL;
+        // scratch states allocated by the main thread before any other thread exists: copying the shared_ptr of the space
+        // inside an op (ScopedState) is an acquire-release operation on its reference count, which would order the ops of
+        // different threads and hide races from the happens-before analysis
+        ob::State *tmpA = nullptr, *tmpB = nullptr;
     };
     std::vector<PerThread> per((size_t)T);
+    for (auto &p : per)
+    {
+        p.tmpA = w->ss->allocState();
+        p.tmpB = w->ss->allocState();
+    }
     std::atomic<int> touched[16];
     for (auto &t : touched)
         t.store(0);
     std::atomic<bool> terminated{false};
 
     const auto &ops = plan["ops"].items();
-    auto doOp = [&](const Json &op, int tid) {
+    std::vector<std::shared_ptr<og::PathGeometric>> prePaths;
+    for (size_t i = 0; i < ops.size(); i++)
+        prePaths.push_back(std::make_shared<og::PathGeometric>(w->si));
+    auto doOp = [&](const Json &op, int tid, size_t oi) {
         PerThread &me = per[(size_t)tid];
         std::string s = surface;
         long a = op.geti("a"), b = op.geti("b"), k = op.geti("k");
@@ -280,30 +292,30 @@ sim::CaseResult ConcSim::run(const sim::Options &, const Json &plan)
             int steps = 1 + (int)(k % 6) * 3;
             double x = s1->as<ob::RealVectorStateSpace::StateType>()->values[0], y = s1->as<ob::RealVectorStateSpace::StateType>()->values[1];
             int expect = 0;
+            auto *tv = me.tmpA->as<ob::RealVectorStateSpace::StateType>()->values;
             for (int i = 0; i < steps; i++)
             {
                 double nx = x + cu[0] * 0.25, ny = y + cu[1] * 0.25;
-                ob::ScopedState<> t(w->ss);
-                t[0] = nx;
-                t[1] = ny;
-                if (!w->valid(t.get()))
+                tv[0] = nx;
+                tv[1] = ny;
+                if (!w->valid(me.tmpA))
                     break;
                 x = nx;
                 y = ny;
                 expect++;
             }
-            ob::ScopedState<> out(w->ss);
+            auto *out = me.tmpB->as<ob::RealVectorStateSpace::StateType>()->values;
             unsigned got;
             if (k % 2 == 0)
-                got = csi->propagateWhileValid(s1, u, steps, out.get());
+                got = csi->propagateWhileValid(s1, u, steps, me.tmpB);
             else
             {
                 std::vector<ob::State *> v;
                 got = csi->propagateWhileValid(s1, u, steps, v, true);
                 if (!v.empty())
-                    w->ss->copyState(out.get(), v.back());
+                    w->ss->copyState(me.tmpB, v.back());
                 else
-                    w->ss->copyState(out.get(), s1);
+                    w->ss->copyState(me.tmpB, s1);
                 for (auto *p : v)
                     w->ss->freeState(p);
             }
@@ -329,8 +341,7 @@ sim::CaseResult ConcSim::run(const sim::Options &, const Json &plan)
             }
             else
             {
-                ob::ScopedState<> lv(w->ss);
-                std::pair<ob::State *, double> last(lv.get(), 0.0);
+                std::pair<ob::State *, double> last(me.tmpA, 0.0);
                 bool v = w->si->checkMotion(s1, s2, last);
                 bool v2 = w->si->checkMotion(s1, s2);
                 me.motionCalls += 2;
@@ -398,7 +409,9 @@ sim::CaseResult ConcSim::run(const sim::Options &, const Json &plan)
         {
             if (k < 3)
             {
-                auto path = std::make_shared<og::PathGeometric>(w->si);
+                // (the path object was made by the main thread: making it here would copy the shared_ptr of the space
+                // information, an acquire-release operation that orders the ops of different threads)
+                auto &path = prePaths[oi];
                 path->append(states[(size_t)(a % 36)].get());
                 path->append(states[(size_t)(b % 36)].get());
                 pdef->addSolutionPath(path, k == 0, k == 0 ? (double)(a % 10) : 0.0, fmt("t%d", tid));
@@ -467,14 +480,14 @@ sim::CaseResult ConcSim::run(const sim::Options &, const Json &plan)
                 if ((int)(ops[oi].geti("t") % T) == t)
                 {
                     ss::yield();
-                    doOp(ops[oi], t);
+                    doOp(ops[oi], t, oi);
                 }
         }));
     for (size_t oi = 0; oi < ops.size(); oi++)
         if ((int)(ops[oi].geti("t") % T) == 0)
         {
             ss::yield();
-            doOp(ops[oi], 0);
+            doOp(ops[oi], 0, oi);
         }
     for (int t : tids)
         ss::join(t);
@@ -524,6 +537,11 @@ sim::CaseResult ConcSim::run(const sim::Options &, const Json &plan)
     ompl::msg::noOutputHandler();
     for (auto *u : controls)
         cspace->freeControl(u);
+    for (auto &p : per)
+    {
+        w->ss->freeState(p.tmpA);
+        w->ss->freeState(p.tmpB);
+    }
     res.trace = h;
     res.interleavings.push_back(st.scheduleHash);
     res.simSeconds = st.simSeconds;
